@@ -47,7 +47,50 @@ func reportPanic(c *core.Ctx, prop, site string, sh gen.Shape, in []byte, pv any
 	c.ViolateP(prop, site, "panic", s, in, fmt.Sprint(pv), stack)
 }
 
+// c04OtherEntryPoints: byte/string-consuming exported functions that are not in the parser
+// registry, with the sweep of this monitor (or of another one) that exercises them.
+var c04OtherEntryPoints = map[string]string{
+	"base32.DecodeString": "decoder sweep", "base32.DecodeStringNoPadding": "decoder sweep", "base32.DecodeStringSafe": "decoder sweep",
+	"base32.DecodeStringSafeNoPadding": "decoder sweep", "base64.DecodeString": "decoder sweep", "base64.DecodeStringSafe": "decoder sweep",
+	"base32.EncodeToString": "C13", "base32.EncodeToStringNoPadding": "C13", "base32.EncodeToStringSafe": "C13",
+	"base64.EncodeToString": "C13", "base64.EncodeToStringSafe": "C13",
+	"data.DecodeIntN": "decoder sweep", "data.HashData": "C07", "data.NewI2PString": "C12", "data.ToI2PString": "C12",
+	"data.ReadMappingValues":                          "decoder sweep",
+	"key_certificate.ConstructSigningPublicKeyByType": "type-code sweep",
+}
+
+// c04CensusGaps lists exported functions of the working tree that take bytes (or a string)
+// as their first argument and are exercised by no sweep.
+func c04CensusGaps() []string {
+	reg := map[string]bool{}
+	for _, p := range lib.Parsers() {
+		name := p.Name
+		if i := strings.Index(name, "("); i > 0 {
+			name = name[:i]
+		}
+		reg[name] = true
+	}
+	var gaps []string
+	for _, f := range lib.CensusFuncs {
+		if f.Recv != "" || !(strings.HasPrefix(f.Params, "[]byte") || strings.HasPrefix(f.Params, "string")) {
+			continue
+		}
+		name := f.Pkg + "." + f.Name
+		if reg[name] {
+			continue
+		}
+		if _, ok := c04OtherEntryPoints[name]; ok {
+			continue
+		}
+		gaps = append(gaps, name+"("+f.Params+")")
+	}
+	return gaps
+}
+
 func runC04(c *core.Ctx) {
+	if gaps := c04CensusGaps(); len(gaps) > 0 && c.Shard == 0 {
+		c.FloorFail("census gap: byte-consuming exported functions that no sweep exercises: " + strings.Join(gaps, "; "))
+	}
 	unit := c.N(400, 8000)
 	parserCases(c, unit, nil, func(pc pcase) { checkC04(c, pc) })
 
@@ -236,6 +279,17 @@ func c04Decoders(c *core.Ctx) {
 		{"base64.DecodeString", func(s string) { base64.DecodeString(s) }},
 		{"base64.DecodeStringSafe", func(s string) { base64.DecodeStringSafe(s) }},
 		{"data.DecodeIntN", func(s string) { data.DecodeIntN([]byte(s)) }},
+		{"data.ReadMappingValues", func(s string) {
+			v, _, _ := data.ReadMappingValues([]byte(s), data.Integer{byte(len(s) >> 8), byte(len(s))})
+			if v != nil {
+				v.Validate()
+				v.IsValid()
+				k, _ := data.ToI2PString("a")
+				v.Get(k)
+			}
+			data.ReadMappingValues([]byte(s), data.Integer{0, 3})
+			data.ReadMappingValues([]byte(s), nil)
+		}},
 		{"data.I2PString-methods", func(s string) {
 			st := data.I2PString(s)
 			st.Data()
